@@ -47,7 +47,7 @@ LAST = {}
 CATALOGUE = [
     ["-g3"], ["-ggdb"], ["-gdwarf-4"], ["-gsplit-dwarf"], ["-g"], ["-O2"], ["-Ofast"], ["-O"], ["-Wall"], ["-W"], ["-w"],
     ["-std=c++17"], ["-MF", "x.d"], ["-MD"], ["-MT", "t"], ["-MQ", "t"], ["-MP"], ["-fPIC"], ["-ccbin", "g++"], ["-x", "c++"],
-    ["-march=native"], ["-pthread"], ["-c"], ["-o", "a.o"], ["@rsp"], ["-Xcompiler", "-fopenmp"], ["-UFOO"], ["--sysroot=/x"],  # (-UFOO: FOO is never defined)
+    ["-march=native"], ["-pthread"], ["-c"], ["-o", "a.o"], ["@rsp"], ["-Xcompiler", "-fopenmp"], ["-undef"], ["--sysroot=/x"],
     ["-cxx-isystem", "d"], ["-coverage"], ["-fopenmp"], ["-Wl,-rpath,/x"], ["-pipe"], ["-m64"], ["-S"], ["-E"], ["-v"],
     ["-nostdinc"], ["-iquote", "q"], ["-idirafter", "d"], ["-L/x"], ["-lm"], ["-shared"], ["-fno-exceptions"], ["-pedantic"],
     ["-ffast-math"],
@@ -407,6 +407,6 @@ def obligations(tier, known):
 
 CLAIM = ("For every assignment of slot kinds and forms within the bound, for ALL detached option values (symbolic strings) and each "
          "of 55 unmodelled real compiler flags at every position, the real parse_args neither aborts nor loses/reorders/alters a "
-         "-D/-I/-isystem/-include - confirmed over all paths by CrossHair.")
+         "-D/-I/-isystem/-include; every sequence of 3/4 -D/-U options leaves exactly the macros a compiler would define - confirmed over all paths by CrossHair.")
 LEVEL_NOTE = ("Trusted: CrossHair/z3 (string theory for option values), stdlib argparse as executed. Bounded: 2/3 slots, one "
               "catalogue flag per vector, values <= 3 characters; response-file contents and -Wp,/-Xpreprocessor forwarding are outside.")
